@@ -40,6 +40,7 @@ func runC05(c *Ctx) {
 	c.Rule("TRAVERSAL", "element iterators recurse into nested messages and adapters visit every place an element kind can occur", 11)
 	c.Rule("CAN-REPORT", "an annotation call is reachable from every registered lint handler", 40)
 	c.Rule("OPTION-PLUMBING", "lint options flow field-to-field from LintConfig to the option readers used by the handlers", 18)
+	c.Rule("FILES-COMPLETE", "every input file is converted for the rule handlers whatever the parallelism (jobs cover all chunks, shared mutex, sorted after the barrier)", 1)
 
 	t := extractCheckTables(p)
 	for _, e := range t.Errors {
@@ -283,6 +284,7 @@ func runC05(c *Ctx) {
 	}
 
 	c05Options(c)
+	goAggRule(c, "FILES-COMPLETE", func(rel string) bool { return rel == "private/bufpkg/bufprotosource" })
 }
 
 func checkPkgsPlusValidate(p *Prog) []*packages.Package {
